@@ -591,6 +591,15 @@ Fixpoint remove_idx (i : N) (idx : list N) (q : list wrec) : list wrec :=
   | r :: t => if smem idx i then remove_idx (i + 1) idx t else r :: remove_idx (i + 1) idx t
   end.
 Definition remove_withdraws (idx : list N) (s : vals) : vals := set_wq (remove_idx 0 idx (get_wq s)) s.
+(* an in-place edit of record i of the queue GetWithdrawQueue() hands out (the staking module
+   sets Finished and lowers FinalBalance this way, with no Add / Remove call): field f := v *)
+Fixpoint set_nth_n {A} (i : N) (f : A -> A) (l : list A) : list A :=
+  match l with
+  | [] => []
+  | x :: r => if N.eqb i 0 then f x :: r else x :: set_nth_n (i - 1) f r
+  end.
+Definition edit_withdraw (i f v : N) (s : vals) : vals :=
+  set_wq (set_nth_n i (set_nth_n f (fun _ => v)) (get_wq s)) s.
 (* GetValidatorsForUpdate: an empty index is re-read from the trie; result = addresses listed *)
 Definition list_validators (s : vals) : vals * list N :=
   let s1 := match vl_index s with
@@ -756,7 +765,7 @@ Inductive sop :=
 | OUpdDelegator (a v : N) (neg : bool) (amt : N) (delete : bool)
 | OCreateVal (v : validator) | OUpdateVal (v : validator) | ORemoveVal (a : N)
 | OAddRewards (ix amt : N) | OSetResidue (ix amt : N)
-| OAddWithdraw (r : wrec) | ORemoveWithdraws (idx : list N)
+| OAddWithdraw (r : wrec) | ORemoveWithdraws (idx : list N) | OEditWithdraw (i f v : N)
 | OListVals
 | OAddSRec (d v tx : N) (nf : option N) | OAddPRel (d v : N) | OResetStk
 | OFinalise (de : bool) | OIRoot (de : bool).
@@ -796,6 +805,7 @@ Definition step (d : database) (s : statedb) (o : sop) : statedb * obs :=
   | OSetResidue ix amt => (with_val s (stat_set_residue ix amt (s_val s)), OL [])
   | OAddWithdraw r => (with_val s (add_withdraw r (s_val s)), OL [])
   | ORemoveWithdraws idx => (with_val s (remove_withdraws idx (s_val s)), OL [])
+  | OEditWithdraw i f v => (with_val s (edit_withdraw i f v (s_val s)), OL [])
   | OListVals => let '(v1, l) := list_validators (s_val s) in (with_val s v1, onums l)
   | OAddSRec dd v tx nf => (with_stk s (add_srec dd v tx nf (s_stk s)), OL [])
   | OAddPRel dd v => (with_stk s (add_prel dd v (s_stk s)), OL [])
